@@ -705,6 +705,38 @@ def rule_stuck_states(ctx):
     ctx.floor(rule, "stuck-state sites classified", sum(seen.values()), 20)
 
 
+def rule_erasure_arity(ctx):
+    """the number of components the linker assumes for a product = the number the checker numbered"""
+    rule = "erasure-arity"
+    facts = ctx.facts
+    ctx.rule(rule, "link::ProductArity (which decides whether a projected field is the LAST component, i.e. the rest of the right spine) "
+                   "counts components exactly like the checker numbers them when it resolves a field: along the right spine of `Prod` "
+                   "and through nothing else. Every match on a type in ProductArity mentions `Prod` only; looking through labels, seals "
+                   "or applications there makes `last` false for a named product-typed tail and the projection yields one slot instead "
+                   "of the rest of the tuple")
+    n = 0
+    for fn, bd in sorted(facts.bodies().items()):
+        if not fn.startswith("zydeco_dynamics::link::ProductArity::") or "{closure" in fn:
+            continue
+        h = facts.hir(fn)
+        if not h:
+            continue
+        ctx.fn(fn)
+        for m in H.walk(h["body"]):
+            if H.kind(m) != "Match" or m.get("src"):
+                continue
+            for a in m["arms"]:
+                vs = set(v.split("::")[-1] for v in H.pat_variants(a["pat"])) - {"Some", "None", "Ok", "Err"}
+                if not vs:
+                    continue
+                n += 1
+                ctx.check(vs <= {"Prod"}, rule, "%s:%s" % (fn.split("::")[-1], "+".join(sorted(vs))),
+                          "link::%s inspects the type former(s) %s: the checker numbers product components along the right spine of Prod "
+                          "only, so the linker's arity (and with it `last`) disagrees for such a tail" % ("::".join(fn.split("::")[-2:]), sorted(vs)),
+                          [bd["loc"][0], a["ln"]], detail={"formers": sorted(vs)})
+    ctx.floor(rule, "type patterns in ProductArity", n, 2)
+
+
 def rule_judgments(ctx):
     """every sub-term / sub-pattern of every former is handed to a checking judgment (R-TRAV on the checker itself)"""
     from .. import trav
@@ -801,6 +833,9 @@ def run(ctx):
     rule_branch_join(ctx)
     rule_declaration_lookup(ctx)
     rule_stuck_states(ctx)
+    rule_erasure_arity(ctx)
+    from . import c03 as _c03
+    _c03.rule_opened_skolems(ctx)
     from . import c04
     from .. import golden
     ctx.rule("coverage-validator", "the validator that makes `no matching arm` and `pattern match failed` unreachable performs its audited "
